@@ -39,6 +39,31 @@ def gen_case(tp, tier):
                 drv.append(['bundle', rprog._gen_lat(tp),
                             rprog._gen_els(tp, 0)])
     kn = C.gen_knobs(tp, fault_free_pm=200)
+    # every message payload is unique so that a received message is
+    # attributable to exactly one send
+    ctr = [0]
+
+    def renum(els):
+        for e in els:
+            if e[0] == 'M':
+                ctr[0] += 1
+                e[1] = ctr[0]
+            else:
+                renum(e[2])
+
+    for r in prog['routines']:
+        for st in r['body']:
+            if st[0] == 'msg':
+                ctr[0] += 1
+                st[1] = ctr[0]
+            elif st[0] == 'bundle':
+                renum(st[2])
+    for st in drv:
+        if st[0] == 'msg':
+            ctr[0] += 1
+            st[1] = ctr[0]
+        elif st[0] == 'bundle':
+            renum(st[2])
     return {'prog': prog, 'driver': drv, 'knobs': kn,
             'loopback': tp.draw(2) == 0, 'tail': tp.choice([0, 0, 0.5, 3])}
 
